@@ -107,6 +107,27 @@ def declaration_contracts(chk):
         got = compiles(src)
         ok = got == want or (want == "any-error" and got != "ok")
         chk.ob(f"declare/{src} -> {want}", ok, "structural", "proved", detail=got)
+    # a declaration of several names: each is resolved on its own (some bound by an enclosing let of the same function - nothing to
+    # declare for those -, some by an enclosing function, some at module level)
+    import types
+    import hy
+    multi = {
+        "(defn f [] (let [a 1 b 2] (let [u 0] (nonlocal a b) (setv a 5 b 6)) [a b])) (f)": [5, 6],
+        "(defn f [] (let [a 1 b 2 c 3] (let [u 0] (nonlocal a b c) (setv a 5 b 6 c 7)) [a b c])) (f)": [5, 6, 7],
+        "(defn f [] (setv p 1) (let [a 1 b 2] (defn g [] (nonlocal a p b) (setv a 5 p 6 b 7)) (g) [a p b])) (f)": [5, 6, 7],
+        "(setv m 0) (defn f [] (let [a 1] (defn g [] (nonlocal a m) (setv a 5 m 6)) (g) [a m])) (f)": [5, 6],
+        # (the let that the declaration stands in binds q itself: that binding is the nearest enclosing one)
+        "(defn f [] (setv p 1 q 2) (defn g [] (let [q 9] (nonlocal p q) (setv p 5 q 6)) None) (g) [p q]) (f)": [5, 2],
+        "(setv m 0 n 0) (defn f [] (let [m 1] (let [n 2] (global m n) (setv m 5 n 6)) [m n])) [(f) m n]": [[5, 6], 5, 6],
+    }
+    for src, want in multi.items():
+        try:
+            got = hy.eval(hy.read_many(src), module=types.ModuleType("hv_c07_multi"))
+        except Exception as e:  # noqa: BLE001
+            got = f"{type(e).__name__}: {e}"
+        chk.case(("multi", src))
+        chk.ob(f"declare-several/{src}", got == want, "cpython-oracle", "proved", detail=f"{got!r}, expected {want!r}",
+               replay=None if got == want else {"confirmed": True, "input": src, "observed": repr(got), "expected": repr(want)})
     # compile_global_or_nonlocal: names are mangled, global emits ast.Global directly, nonlocal an OuterVar resolved later
     import ast
     out = sx.run_rule(E(S("global"), S("a-b"), S("c!")), scope_ctx=None)
@@ -159,6 +180,19 @@ def run(chk):
                     pres = pre + pre_binds if d <= 2 else (pre[:2] if (not quick or any(l[0] == "class" for l in levels)) else pre[:1])
                     for prog in sc.spine_programs(list(levels), pres, post, inner):
                         PROGS.append(tuple(m(v) for m in mod_pre) + prog + (("log", "x"), ("log", "y")))
+    # a (global x) written directly in a let body (no function in between): from the declaration on, x is the module variable
+    # everywhere in that Python scope - in the let that declares it, in the enclosing lets after the inner one is left, and in
+    # except-variable scopes
+    for d in range(2, 4):
+        for levels in itertools.product([("fn",), ("defn",), ("let", ("x",)), ("let", ("y",))], repeat=d):
+            if levels[0][0] not in ("fn", "defn") or not any(l[0] == "let" for l in levels):
+                continue
+            for mod_pre in ((SETV("x"),), (SETV("x"), SETV("y"))):
+                v = sc.Vals()
+                inner = [(GLOBAL("x"), SETV("x"), LOG("x"), LOG("y"))]
+                posts = [(LOG("x"), SETV("x"), LOG("x"), LOG("y"))]
+                for prog in sc.spine_programs(list(levels), [()], posts, inner):
+                    PROGS.append(tuple(m(v) for m in mod_pre) + prog + (("log", "x"), ("log", "y")))
     import gc; gc.collect(); gc.freeze()  # forked workers then touch (copy) far fewer pages
     with mp.get_context("fork").Pool(chk.jobs) as pool:
         res = core.pmap(pool, _w, range(len(PROGS)), chunksize=128)
